@@ -1,6 +1,7 @@
 package safeio
 
 import (
+	"bytes"
 	"fmt"
 	"context"
 	"errors"
@@ -245,4 +246,91 @@ func VerifC09_ConvertIOError() {
 	verif.Assert("io_error_kind", commonerrors.Any(out, want))
 	verif.Assert("idempotent", commonerrors.Any(ConvertIOError(out), want))
 	verif.Assert("nil_stays_nil", ConvertIOError(nil) == nil)
+}
+
+// chunkReader delivers concrete content in chunks of a fixed size.
+type chunkReader struct {
+	content []byte
+	pos     int
+	chunk   int
+}
+
+func (r *chunkReader) Read(p []byte) (int, error) {
+	if r.pos >= len(r.content) {
+		return 0, io.EOF
+	}
+	n := r.chunk
+	if n > len(p) {
+		n = len(p)
+	}
+	if n > len(r.content)-r.pos {
+		n = len(r.content) - r.pos
+	}
+	copy(p, r.content[r.pos:r.pos+n])
+	r.pos += n
+	return n, nil
+}
+
+// VerifC09_BufferBoundaries: lengths around the buffer sizes used underneath
+// (bytes.MinRead = 512, 1 KiB, 4 KiB, the 32 KiB of io.Copy), maxima just below,
+// at and just above the length, several chunkings and buffer capacities:
+// bounded reads and copies still deliver exact prefixes. Concrete content.
+func VerifC09_BufferBoundaries() {
+	lengths := []int{0, 1, 511, 512, 513, 1023, 1024, 1025, 4095, 4096, 4097}
+	if verif.Tier() > 0 {
+		lengths = append(lengths, 32767, 32768, 32769)
+	}
+	L := lengths[verif.Choice("L", len(lengths))]
+	content := make([]byte, L)
+	for i := range content {
+		content[i] = byte(i % 251)
+	}
+	chunk := []int{7, 512, 4096, 1 << 20}[verif.Choice("chunk", 4)]
+	var max int64
+	switch verif.Choice("max", 4) {
+	case 0:
+		max = -1
+	case 1:
+		max = int64(L) - 1
+	case 2:
+		max = int64(L)
+	case 3:
+		max = int64(L) + 1
+	}
+	verif.Assume(max >= -1)
+	bufCap := []int64{-1, 0, 1, 512, 513}[verif.Choice("bufCap", 5)]
+	ctx := context.Background()
+	want := L
+	if max >= 0 && int(max) < L {
+		want = int(max)
+	}
+	if verif.Bool("copy") {
+		var dst bytes.Buffer
+		var n int64
+		var err error
+		if max < 0 {
+			n, err = CopyDataWithContext(ctx, &chunkReader{content: content, chunk: chunk}, &dst)
+		} else {
+			n, err = CopyNWithContext(ctx, &chunkReader{content: content, chunk: chunk}, &dst, max)
+		}
+		if max > int64(L) {
+			verif.Assert("copy_n_beyond_the_source_is_an_error", err != nil)
+		} else if want > 0 {
+			verif.Assert("copy_succeeds", err == nil && n == int64(want))
+		}
+		verif.Assert("copied_bytes_are_a_prefix", dst.Len() <= L && bytes.Equal(dst.Bytes(), content[:dst.Len()]))
+		if err == nil {
+			verif.Assert("copy_transfers_exactly", dst.Len() == want)
+		}
+		return
+	}
+	got, err := ReadAtMost(ctx, &chunkReader{content: content, chunk: chunk}, max, bufCap)
+	verif.Assert("content_is_a_prefix_of_the_source", len(got) <= L && bytes.Equal(got, content[:len(got)]))
+	verif.Assert("never_more_than_max", max < 0 || int64(len(got)) <= max)
+	if want > 0 {
+		verif.Assert("no_spurious_failure", err == nil)
+	}
+	if err == nil {
+		verif.Assert("success_delivers_exactly_the_prefix", len(got) == want)
+	}
 }
